@@ -1,5 +1,6 @@
 """C03 - stream query is a pure simulation: it never changes strategy state."""
 import numpy as np
+from skactiveml.classifier import ParzenWindowClassifier
 
 from vf import gen, streams
 from vf.core import stable_hash
@@ -82,6 +83,8 @@ def _build(desc):
         extra["cognition_window_size"] = max(2, min(desc["w"], 15))
         extra["force_full_budget"] = bool(seed % 2)
         extra["density_threshold"] = 1 + seed % 2
+    if desc.get("train") and desc["name"] in streams.NEEDS_FREQ:
+        extra["metric"] = "rbf"       # the strategy estimates the frequencies itself from the training data given to query
     return streams.make_strategy(desc["name"], None if bm is not None else desc["budget"], _rs(desc["rs"], seed), bm=bm, **extra)
 
 
@@ -114,15 +117,34 @@ def run_case(desc):
     if not is_bm:
         clf = streams.pwc_clf(gen.rng_for("c03clf", desc["seed"]), d) if (
             desc["clf"] == "pwc" or desc["name"] in streams.NEEDS_FREQ) else streams.stub_clf()
+    # training data given to the query itself: a sliding training window of constant shape whose content moves from call to
+    # call (the usual stream set-up); extra queries of the twin see other windows of the same shape
+    train = (not is_bm) and isinstance(clf, ParzenWindowClassifier) and (desc["seed"] >> 11) % 2 == 1
+    desc = dict(desc, train=train)
+    WL = 8
+    if train:
+        trng = gen.rng_for("c03train", desc["seed"])
+        Xtr = np.round(trng.rand(40, d), 3).astype(X.dtype)
+        ytr = (Xtr[:, 0] > 0.5).astype(float)
+        ytr[trng.rand(40) < 0.3] = np.nan
+        wtr = np.round(trng.rand(40) + 0.2, 2) if (desc["seed"] >> 12) % 2 else None
+        fit_clf = bool((desc["seed"] >> 13) % 2)
     viol = []
     comp = desc["name"] if not desc["bm"] else "%s+%s" % (desc["name"], desc["bm"])
-    stats = {"queries": 0, "mixed_chunks": 0, "extras": 0}
+    stats = {"queries": 0, "mixed_chunks": 0, "extras": 0, "queries_with_training_window": 0}
+
+    def call(obj, cand, off):
+        if not train or not streams.needs_clf(obj):
+            return streams.query_strategy(obj, cand, clf)
+        stats["queries_with_training_window"] += 1
+        kw = {} if wtr is None else {"sample_weight": wtr[off:off + WL]}
+        return obj.query(cand, clf=clf, X=Xtr[off:off + WL], y=ytr[off:off + WL], fit_clf=fit_clf, return_utilities=True, **kw)
 
     def add(kind, detail):
         if not any(v["kind"] == kind for v in viol):
             viol.append({"component": comp, "kind": kind, "detail": detail, "trigger": "any"})
 
-    def do_query(obj, a, b, check=True):
+    def do_query(obj, a, b, check=True, off=0):
         """monitored query: state contract + repeat contract"""
         cand = X[a:b]
         before = streams.state_fp(obj)
@@ -135,7 +157,7 @@ def run_case(desc):
                 idx = obj.query_by_utility(U[a:b])
                 res = (idx, U[a:b])
             else:
-                res = streams.query_strategy(obj, cand, clf)
+                res = call(obj, cand, off)
         except steps.StepBudgetExceeded:
             raise
         except Exception as ex:      # recorded as the result of this call; the state contract still runs
@@ -161,7 +183,7 @@ def run_case(desc):
                 if is_bm:
                     res2 = (obj.query_by_utility(U[a:b]), U[a:b])
                 else:
-                    res2 = streams.query_strategy(obj, cand, clf)
+                    res2 = call(obj, cand, off)
             except steps.StepBudgetExceeded:
                 raise
             except Exception as ex:
@@ -182,14 +204,15 @@ def run_case(desc):
         for ci, (a, b) in enumerate(chunks):
             if extra:
                 for _ in range(int(erng.randint(0, 4))):
+                    eoff = int(erng.randint(0, 32))
                     if erng.rand() < 0.5:
-                        do_query(obj, a, b, check=False)
+                        do_query(obj, a, b, check=False, off=eoff)
                     else:
                         a2 = int(erng.randint(0, n - 1))
                         b2 = int(min(n, a2 + erng.randint(1, 16)))
-                        do_query(obj, a2, b2, check=False)
+                        do_query(obj, a2, b2, check=False, off=eoff)
                     stats["extras"] += 1
-            r = do_query(obj, a, b, check=not extra)
+            r = do_query(obj, a, b, check=not extra, off=(3 * ci) % 32)
             out.append(r)
             if r[0] == [-1]:
                 break
